@@ -4,7 +4,7 @@ sys.path.insert(0, '/verif/tools'); sys.path.insert(0, '/verif/tools/harness')
 import engine_common as EC
 r = json.load(open(sys.argv[1]))
 k = int(sys.argv[2])
-items = [r]
+items = r.get('correspondence_failed') or r.get('violations') or []
 w = items[k]['witness']
 base = tempfile.mkdtemp(prefix='dbg_')
 case = {"idx": 0, "root": base + "/c0/p", "ops": w['history_ops'], "sources": [101, 102]}
